@@ -38,7 +38,9 @@ class World:
         self.imp = imp
         A = W.mk_layer('A', (), su=self.su.get('A', 0), td=self.td.get('A', 0), hooks=hooks)
         B = W.mk_layer('B', (A,) if b_on_a else (), su=self.su.get('B', 0), td=self.td.get('B', 0), hooks=hooks)
-        self.layers = {'A': A, 'B': B}
+        # 'A2': a layer whose full name ('w.A2') contains another layer's full name ('w.A')
+        A2 = W.mk_layer('A2', (), hooks=hooks)
+        self.layers = {'A': A, 'B': B, 'X': A2}
         self.b_on_a = b_on_a
         out = None
         if noise:
@@ -71,7 +73,7 @@ class World:
         return s
 
     def layer_of(self, name):
-        return {'a': 'A', 'b': 'B'}.get(name[0], 'U')
+        return {'a': 'A', 'b': 'B', 'x': 'A2'}.get(name[0], 'U')
 
 
 class Run:
